@@ -181,3 +181,27 @@ Proof.
   unfold no_preset, write_fails_evs.
   repeat (apply Forall_cons; [first [exact I | reflexivity] |]). apply Forall_nil.
 Qed.
+
+(* ---- requests outstanding ACROSS a Shutdown; a reply of exactly the buffering limit (round 6) ----
+   [C03_awaited_reply_is_delivered] holds in every reachable state in which the read loop waits for a header — it does
+   not ask what the write loop is doing: caller 1's request (id 0) is on the wire when caller 2's CloseConnection (id 1)
+   goes out and the write loop parks; the reader then answers caller 1 with a payload of exactly max_buffered bytes and
+   only afterwards refuses the CloseConnection: caller 1 holds its reply — type, all 655360 bytes — and caller 2 the
+   refusal; nothing is closed. *)
+Definition across_shutdown_evs : list event :=
+  [ConnStart; ConnFirst ren_ok HBNone; ConnReady; RCheck;
+   Submit 1 req1; PassGate 1; WDefault; WAccept 1; WWriteHdr; WWritePay;
+   Submit 2 (mkReq T_CloseConnection 0 0 0 1 true true); PassGate 2; WDefault; WAccept 2; WWriteHdr;
+   RFrame (mkFrame 1 12 0 max_buffered 4242 IOpaque) HBNone; RCheck;
+   RFrame (mkFrame 1 T_CloseConnectionResponse 1 8 55 (IStatus 101)) HBNone; RCheck].
+Example C03_across_shutdown_example :
+  let s := run cfg_fixed across_shutdown_evs in
+  writer s = WParked /\ closed s = false /\
+  caller_result s 1 = Some (ROk 1%nat (mkFrame 1 12 0 max_buffered 4242 IOpaque)) /\
+  reply_view (mkFrame 1 12 0 max_buffered 4242 IOpaque) = (12, 655360, 4242) /\
+  delivered s = [(1, 1%nat, mkFrame 1 12 0 max_buffered 4242 IOpaque);
+                 (2, 2%nat, mkFrame 1 T_CloseConnectionResponse 1 8 55 (IStatus 101))].
+Proof.
+  cbv zeta. split; [vm_compute; reflexivity|]. split; [vm_compute; reflexivity|]. split; [vm_compute; reflexivity|].
+  split; vm_compute; reflexivity.
+Qed.
